@@ -10,7 +10,9 @@ the same contracts are proved for 16- and 32-bit limbs of one width (thorough).
 NOT claimed (beyond every SAT back end here, measured in the design probe): multi-limb *, /, %, decimal text, float conversion.
 """
 from vplib import cxxtypes as CT
-from vplib.speclib import KERNEL_HEAD, T, cxx, Contract, Job, Kernel
+import re
+
+from vplib.speclib import KERNEL_HEAD, T, cxx, dem, Contract, Job, Kernel
 
 PROP = 'C10'
 
@@ -29,11 +31,12 @@ def limb_path(tr, t):
             raise ValueError('no limb array in ' + rt.key())
 
 
-def V(tr, fi, k, Wbits):
+def V(tr, fi, k, Wbits, old=False):
     t = tr.mod.resolve(fi['param_t'][k]).a
     path, n, lb = limb_path(tr, t)
     U = 'unsigned __CPROVER_bitvector[%d]' % Wbits
-    terms = ['(((%s)(*a%d)%s.a[%d]) << %d)' % (U, k, path, i, lb * i) for i in range(n)]
+    limb = (lambda e: '__CPROVER_old(%s)' % e) if old else (lambda e: e)       # history variables are tracked per limb
+    terms = ['(((%s)%s) << %d)' % (U, limb('(*a%d)%s.a[%d]' % (k, path, i)), lb * i) for i in range(n)]
     return '(' + ' | '.join(terms) + ')', n * lb
 
 
@@ -88,6 +91,37 @@ def cmp_contract(sym, signed):
     return gen
 
 
+def ctor_contract(src_t):
+    def gen(m, fi, tr):
+        _, Wb = V(tr, fi, 0, 8)
+        r, _ = V(tr, fi, 0, Wb)
+        U = 'unsigned __CPROVER_bitvector[%d]' % Wb
+        S = '__CPROVER_bitvector[%d]' % Wb
+        return Contract(requires=[], ensures=['%s == (%s)(%s)((%s)(*a1))' % (r, U, S if src_t.signed else U, src_t.sctype)], assigns=['*a0'],
+                        note='construction from %s: the value, sign-/zero-extended to the storage width' % src_t.name)
+    return gen
+
+
+def conv_contract(dst_t):
+    def gen(m, fi, tr):
+        _, Wb = V(tr, fi, 0, 8)
+        a, _ = V(tr, fi, 0, Wb)
+        return Contract(requires=[], ensures=['(%s)$RET == (%s)%s' % (dst_t.sctype, dst_t.sctype, a)], assigns=[],
+                        note='conversion to %s: the value reduced modulo 2^%d (low bits)' % (dst_t.name, dst_t.bits))
+    return gen
+
+
+def step_contract(sym):
+    def gen(m, fi, tr):
+        _, Wb = V(tr, fi, 0, 8)
+        a, _ = V(tr, fi, 0, Wb)
+        a0, _ = V(tr, fi, 0, Wb, old=True)
+        U = 'unsigned __CPROVER_bitvector[%d]' % Wb
+        return Contract(requires=[], ensures=['%s == (%s)(%s %s 1)' % (a, U, a0, sym), '$RET == a0'], assigns=['*a0'],
+                        note='pre-%s: value %s 1 modulo 2^%d, returns the operand' % ('increment' if sym == '+' else 'decrement', sym, Wb))
+    return gen
+
+
 def plan(tier):
     thorough = tier == 'thorough'
     src = [KERNEL_HEAD]
@@ -122,16 +156,35 @@ def plan(tier):
                                 shift_contract(left, signed, K), via=sname, prop=PROP, unwind=20, timeout=900, skip_this=False, object_bits=13,
                                 harness_pre='vp_in2 = %d;' % K, note='shift count fixed to %d (one job per count of a boundary-rich set); all operand values' % K,
                                 solvers=('minisat', 'cadical'), layer=3))
-        for name, sym in (('eq', '=='), ('lt', '<')):
+        for name, sym in (('eq', '=='), ('lt', '<'), ('ge', '>=')) + ((('ne', '!='), ('le', '<='), ('gt', '>')) if thorough else ()):
             sname = 'vp_%s_%s' % (name, tag)
             src.append('extern "C" bool %s(%s const* a, %s const* b) { return *a %s *b; }\n' % (sname, Wt, Wt, sym))
-            jobs.append(Job('%s.%s.%s' % (PROP, name, tag), kname, r'^auto cnl::_impl::operator(==|<)<cnl::_impl::wrapper<cnl::_impl::math::wide_integer::uintwide_t<',
+            jobs.append(Job('%s.%s.%s' % (PROP, name, tag), kname, r'^auto cnl::_impl::operator(==|!=|<=?|>=?)<cnl::_impl::wrapper<cnl::_impl::math::wide_integer::uintwide_t<',
                             cmp_contract(sym, signed), via=sname, prop=PROP, unwind=20, timeout=900, skip_this=False, object_bits=13, layer=3))
+        # construction from / conversion to built-in integers, ++ and --
+        PW = r'cnl::_impl::wrapper<cnl::_impl::math::wide_integer::uintwide_t<[^()]*>, cnl::wide_tag<[^()]*> >'
+        for ts in (['i64', 'u32'] + (['i8', 'u64'] if thorough else [])):
+            t = T(ts)
+            sname = 'vp_from_%s_%s' % (ts, tag)
+            src.append('extern "C" void %s(%s v, %s* r) { *r = %s{v}; }\n' % (sname, cxx(ts), Wt, Wt))
+            jobs.append(Job('%s.from_%s.%s' % (PROP, ts, tag), kname, r'^%s::wrapper<%s>\(%s const&\)$' % (PW, dem(ts), dem(ts)),
+                            ctor_contract(t), via=sname, prop=PROP, unwind=20, timeout=600, skip_this=False, object_bits=13, layer=3))
+        for ts in (['i64', 'u16'] + (['i32', 'u64'] if thorough else [])):
+            t = T(ts)
+            sname = 'vp_to_%s_%s' % (ts, tag)
+            src.append('extern "C" %s %s(%s const* a) { return static_cast<%s>(*a); }\n' % (cxx(ts), sname, Wt, cxx(ts)))
+            jobs.append(Job('%s.to_%s.%s' % (PROP, ts, tag), kname, r'^%s::operator %s<%s>\(\) const$' % (PW, dem(ts), dem(ts)),
+                            conv_contract(t), via=sname, prop=PROP, unwind=20, timeout=600, skip_this=False, object_bits=13, layer=3))
+        for name, sym in (('inc', '+'), ('dec', '-')):
+            sname = 'vp_%s_%s' % (name, tag)
+            src.append('extern "C" void %s(%s* a) { %s%s*a; }\n' % (sname, Wt, sym, sym))
+            jobs.append(Job('%s.%s.%s' % (PROP, name, tag), kname, r'^decltype\(auto\) cnl::_impl::operator(\+\+|--)<%s >\(%s&\)$' % (PW, PW),
+                            step_contract(sym), via=sname, prop=PROP, unwind=20, timeout=600, skip_this=False, object_bits=13, layer=3))
     k = Kernel(kname, ''.join(src), [], 'wide_integer linear operations')
     meta = {'instantiations': len(jobs),
             'explanation': 'limbs concatenated into one W-bit vector; every limb loop closed by complete unwinding',
             'not_applicable_parts': ['<< and >> with a SYMBOLIC count (limb move + bit shift loops): CBMC ran out of memory; proved per count for a boundary-rich set of constant counts instead', 'multi-limb *, /, %: two different W-bit multipliers/dividers, no SAT answer even at 64 bits total (design probe)',
-                                     'decimal text output and float conversion of wide values', 'numeric_limits, ++/--, conversions to/from built-ins: not built',
+                                     'decimal text output and float conversion of wide values', 'numeric_limits; operator~ does not compile for widths beyond 128 bits (uintwide_t has no const operator~): nothing to verify',
                                      'the two\'s-complement width is the storage width (a multiple of the limb width), not Digits+1'],
             'assumptions': []}
     return {'kernels': [k], 'jobs': jobs, 'meta': meta}
